@@ -14,6 +14,15 @@ Families:
            The arguments the front end hands to `c_anneal_*` are recorded in the child (before the call) and fed
            to the Lean checked-memory model (`c17_quso` / `c17_puso`), which must say `wf` and `ok`, and — for
            seed >= 0 — must reproduce the C output (states, bit patterns of the values) exactly.
+  schedtype (inside `api`) explicit schedules whose entries are numbers but not Python floats — int, bool, Fraction, Decimal,
+           numpy.int64/int32/uint8/float32/float16/float64/bool_, objects offering only __index__; exactly representable
+           values, uniform or mixed, as list / tuple / ndarray / iterator — on the C11 and C17 model shapes.  The wrapper
+           must CONVERT every entry to a C double.  Each such call is followed in the same child by the call with the equal
+           schedule [float(t) for t in schedule] under the same seed: the two C outputs must be identical (an entry read
+           through the wrong C type — its object memory taken for a double — is undefined behaviour that no sanitizer
+           flags, but it makes the result depend on the Python type of equal numbers); the recorded C arguments
+           (temperatures as float(entry)) go through the Lean checked model like every `api` call.  A failed assertion of
+           CPython's inline accessors in the sanitised build (compiled without -DNDEBUG) aborts the child: a crash.
   fresh    a sample of the same calls, each in a fresh child process: same output as inside the history.
   reorder  the sampled history again in reversed order in another child: same per-call output.
   objhist  histories on ONE model object (PUSOMatrix / QUSOMatrix / PUBOMatrix / QUBOMatrix and the labelled types):
@@ -36,6 +45,8 @@ CEXT = "plain"
 RULE = ("public-API calls of the four annealers under ASan+UBSan in one child process (history), inputs from the C11 "
         "generator plus single-variable / isolated / gapped-Matrix / high-degree / no-coupling / cancelled / larger-N "
         "shapes, schedules incl. [] and zeros, num_anneals>=1 (a few <=0), with/without initial state, both orders; "
+        "plus the same shapes with explicit schedules whose entries are int / bool / Fraction / Decimal / numpy scalars / __index__ "
+        "objects equal to floats (each followed by the call with the equal float schedule under the same seed); "
         "plus histories on one model object (in-place growth, cancellation, *=, refresh, clear, bookkeeping reads, "
         "several anneals; non-trivial = >= 2 C calls); "
         "non-trivial = the call reached the C kernel with N>=2, >=1 coupling of degree>=2 and a non-empty schedule; "
@@ -210,10 +221,24 @@ def _child_main():
                         res = getattr(sim, "anneal_" + case["fn"])(
                             obj, num_anneals=case["num_anneals"], initial_state=init, in_order=case["in_order"],
                             seed=case["seed"], **kw)
+                        if case["sched"].get("types"):
+                            # family schedtype: the same call with the equal float schedule, same seed, same process
+                            tw = dict(case, sched={k: v for k, v in case["sched"].items() if k not in ("types", "container")})
+                            obj2, L2 = c11.build_obj(tw)
+                            kw2, _ = c11.schedule_args(tw, obj2)
+                            init2 = None if tw["init"] is None else {L2.lab(j): v for j, v in tw["init"]}
+                            twin = getattr(sim, "anneal_" + tw["fn"])(
+                                obj2, num_anneals=tw["num_anneals"], initial_state=init2, in_order=tw["in_order"],
+                                seed=tw["seed"], **kw2)
                     api = {"n": len(res), "values": [common.fs(r.value) if isinstance(r.value, (int, float)) and
                                                      r.value == r.value and abs(r.value) != float("inf") else repr(r.value)
                                                      for r in res],
                            "states": [[int(v) for _, v in sorted(r.state.items(), key=lambda kv: repr(kv[0]))] for r in res]}
+                    if case["family"] == "anneal" and case["sched"].get("types"):
+                        api["twin"] = [[[int(v) for _, v in sorted(r.state.items(), key=lambda kv: repr(kv[0]))], repr(r.value)]
+                                       for r in twin]
+                        api["typed"] = [[[int(v) for _, v in sorted(r.state.items(), key=lambda kv: repr(kv[0]))], repr(r.value)]
+                                        for r in res]
         except Exception as e:
             api = {"err": common.exc_name(e), "detail": repr(e)[:300]}
         say("RES", {"i": i, "api": api})
@@ -266,6 +291,14 @@ def run_child(items, timeout):
     for i, lines in seg.items():
         if i in recs:
             recs[i]["san"] = "\n".join(lines)
+    cases_by_i = dict(items)
+    for i, rec in recs.items():
+        c = cases_by_i.get(i) or {}
+        if c.get("family") == "anneal" and (c.get("sched") or {}).get("types") and rec["calls"]:
+            # family schedtype: the first C call is the typed one (it is the call that is judged), the second its float twin
+            rec["call"], rec["out"] = rec["calls"][0]["call"], rec["calls"][0]["out"]
+            rec["twin_out"] = rec["calls"][1]["out"] if len(rec["calls"]) > 1 else None
+            rec["has_twin"] = len(rec["calls"]) > 1
     died = None
     if not bye:
         unfinished = [i for i in order if recs[i]["api"] is None]
@@ -303,10 +336,11 @@ def san_report(rec):
     if not hit and "died" not in rec:
         return None
     lines = s.splitlines()
-    head = next((l for l in lines if any(m in l for m in SAN_MARKS)), "child died with rc=%s" % rec.get("died"))
+    head = next((l for l in lines if any(m in l for m in SAN_MARKS)),
+                "child died with rc=%s%s" % (rec.get("died"), "".join(": " + l.strip() for l in lines if "Assertion" in l)[:300]))
     acc = next((l.strip() for l in lines if l.strip().startswith(("WRITE of size", "READ of size"))), "")
     frames = [l.strip() for l in lines if l.strip().startswith("#") and ("qubovert" in l or "anneal" in l)][:3]
-    kind = "asan"
+    kind = "assertion-failed-abort" if (not hit and "Assertion" in s) else "asan"
     for w in ("heap-buffer-overflow", "heap-use-after-free", "double-free", "attempting free", "SEGV", "stack-buffer-overflow",
               "global-buffer-overflow", "signed integer overflow", "runtime error", "requested allocation size",
               "allocation-size-too-big", "bad-free"):
@@ -461,6 +495,20 @@ def judge(ctx, case, rec, m, family="api"):
                 excerpt)
         ctx.violation(sig, case, why)
         found = True
+    if call is not None and rec.get("has_twin") and not rep:
+        api = rec.get("api") or {}
+        if rec.get("twin_out") != rec.get("out") or api.get("twin") != api.get("typed"):
+            sch = c11.typed_schedule(case["sched"])
+            ctx.violation("C17:schedule-entry-type-dependence", case,
+                          "anneal_%s(..., schedule=%r, in_order=%s, seed=%r, num_anneals=%d): the C extension returns %s, but for "
+                          "the equal schedule %r (every entry == the float it stands for), same seed, same process, it returns "
+                          "%s.  The temperature the kernel used is not float(entry): the wrapper read the entry's object memory "
+                          "as a C double instead of converting it (an object accessed through the wrong C type is undefined "
+                          "behaviour; no sanitizer flags it because the read stays inside the foreign object)"
+                          % (case["fn"], list(sch) if not isinstance(sch, (list, tuple)) else sch, case["in_order"], case["seed"],
+                             case["num_anneals"], json.dumps(rec.get("out"))[:260], [float(t) for t in case["sched"]["Ts"]],
+                             json.dumps(rec.get("twin_out"))[:260]))
+            found = True
     if call is None:
         return found
     if m is None:
@@ -507,6 +555,10 @@ def process(ctx, cases, sample_fresh):
         call = rec.get("call")
         ctx.count("%s:%s" % (c.get("fn", c.get("kind")), "kernel" if call else "early"))
         ctx.count("shape:" + str(c.get("shape", c["family"])))
+        if (c.get("sched") or {}).get("types"):
+            for ty in set(c["sched"]["types"]):
+                ctx.count("schedtype:entry:" + ty)
+            ctx.count("schedtype:%s" % ("twin-compared" if rec.get("has_twin") else "no-C-call"))
         if call:
             ctx.traces += 1
             ctx.count("Ts:" + ("empty" if not call["Ts"] else "zeros" if all(t == 0 for t in call["Ts"]) else "mixed"))
@@ -703,6 +755,16 @@ def check(ctx):
     cases += [gen_c17(rng) for _ in range(n_c17)]
     cases += [gen_c17(rng, big=True) for _ in range(n_big)]
     cases += [c11.gen_kernel_case(rng) for _ in range(n_k)]
+    # family schedtype: C11 / C17 shapes with explicit schedules whose entries are numbers that are not Python floats
+    for _ in range(ctx.scale(120, 6000)):
+        c = c11.gen_case(rng) if rng.random() < 0.5 else gen_c17(rng)
+        if c["num_anneals"] <= 0:
+            c["num_anneals"] = rng.choice([1, 2, 3])
+        if c["seed"] is None:
+            c["seed"] = rng.randrange(2 ** 31)
+        c["sched"] = c11.gen_typed_schedule(rng, 20)
+        c["shape"] = "schedtype"
+        cases.append(c)
     head, tail = cases[:2], cases[2:]
     rng.shuffle(tail)
     process(ctx, head + tail, ctx.scale(6, 40))
